@@ -120,6 +120,18 @@ def check(ctx, facts, cfg):
                                   'initialiser of %s reaches blocking primitive %s via %s' % (p, e, ' -> '.join(core.short(x) for x in cg.chain(parent, q))),
                                   site=facts.fns[q].span, fn=p, cfg=cfg)
         graph[p] = {d for d in deps if d in facts.statics}
+    # the initialisers run once, through their LazyLock: nobody calls them directly (a direct call rebuilds a table privately,
+    # outside the synchronised first use, on whichever thread gets there)
+    all_inits = set()
+    for p, s_ in lazies.items():
+        all_inits |= {q for q in fn_consts(s_['body']) if q in facts.fns}
+    for q in sorted(all_inits):
+        callers = sorted(c_ for c_ in cg.callers.get(q, set()) if c_ not in facts.statics)
+        if callers:
+            ctx.violation('C16.a-lazy-dag', 'initialiser-called-directly:%s' % core.short(q), 'table initialiser %s is called directly by %s instead of being reached only through its LazyLock' % (q, callers),
+                          site=facts.fns[q].span, fn=q, cfg=cfg)
+        else:
+            ctx.ok('C16.a-lazy-dag', 'only-through-lazylock:%s@%s' % (q, cfg), None)
     # cycle detection
     color = {}
     cyc = []
